@@ -6,6 +6,8 @@
   the partial-overlap path only) and whether a warning was recorded.
 -/
 import Synphot.Props.C09
+import Synphot.Lemmas.C10x
+import Synphot.Lemmas.TranscReal
 
 set_option linter.unusedSectionVars false
 set_option linter.unusedVariables false
@@ -83,6 +85,186 @@ theorem normalize_hits_target_fnu (obs band : List (K × K)) (hc c target : K) (
   have h1 := ne_of_gt htot; have h2 := ne_of_gt hB; have h3 := ne_of_gt hhc; have h4 := ne_of_gt hA
   have h5 := ne_of_gt hcc
   field_simp
+
+/-! ## Deepening: every target unit
+
+Conventions of the sums-level theorems: `obs` holds the samples `(λ, F(λ)·P(λ))` of source × band in
+PHOTLAM on the grid `normalize` integrates the source on (which is the grid `effstim` samples the
+observation on, the scaled source having the same sampling set); `band` holds `(λ, P(λ))` on the
+bandpass's grid (the grid of the standard spectrum × band, `ConstFlux1D` having no sampling set, and of
+`effstim`'s denominator and pivot).  `total = ∫ obs` and `std = ∫ standard × band` are the two
+(unsigned, here positive) trapezoid sums of the code; the normalised observation's FLAM samples are
+`k · F P · hc / λ`. -/
+
+open C10x
+
+/-- the factor is positive **for every target unit**: magnitude units unconditionally, linear units
+for a positive target (positive band integrals) -/
+theorem factor_pos_every_unit (T : Transc K) (hT : T.Lawful) (u : FluxUnit K) (target total std : K)
+    (htot : 0 < total) (hstd : 0 < std) (ht : u.isMag = true ∨ 0 < target) :
+    0 < factorValue T u target total std := factorValue_pos hT u target total std htot hstd ht
+
+/-- **post-condition, Jy and prefixed Jy** (`.jy s`: `s` = value of the unit in Jy, `mJy ↦ 1/1000`):
+the FLAM effective stimulus of the normalised spectrum, converted by `convert_flux` at the pivot
+wavelength `sqrt|∫λP / ∫P/λ|` to the target's unit, is the target.  (`s = 1/jyFnu` gives FNU, and the
+same statement for FLAM holds with the identity conversion.) -/
+theorem normalize_hits_target_jy (P : PhysConst K) (T : Transc K) (hP : P.Pos) (hT : T.Lawful)
+    (obs band : List (K × K)) (s target : K) (hs : 0 < s) (ht : 0 < target)
+    (hpos : ∀ p ∈ obs, p.1 ≠ 0) (hposb : ∀ p ∈ band, p.1 ≠ 0)
+    (htot : 0 < trapz obs) (hB : 0 < trapz (C09.timesLam band)) (hA : 0 < trapz (C09.overLam band)) :
+    let std := trapz (band.map fun p => (p.1, flatPhotlam P (.jy s) 1 p.1 * p.2))
+    let k := factorValue T (.jy s) target (trapz obs) std
+    let wp := T.sqrt |trapz (C09.timesLam band) / trapz (C09.overLam band)|
+    convertOne P T (plainSamp wp) .flam (.jy s)
+      (C09.effstimFlam (obs.map fun p => (p.1, k * p.2 * (P.h * P.c) / p.1)) band) = .ok target := by
+  intro std k wp
+  have hh := hP.h; have hc := hP.c; have hj := hP.jy
+  have hstd : std = 1 * s * P.jyFnu * P.c / (P.h * P.c) * trapz (C09.overLam band) := std_jy P band s 1 hposb
+  have hstdpos : 0 < std := by rw [hstd]; positivity
+  have hk : k = target * (std / trapz obs) := by simp [k, factorValue, FluxUnit.isMag]
+  have hkpos : 0 < k := by rw [hk]; positivity
+  obtain ⟨hwp, hsq⟩ := pivot_sq hT _ _ hA hB
+  rw [effstimFlam_scaled obs band (P.h * P.c) k (mul_pos hh hc) hkpos hpos htot hB,
+    convert_flam_jy P T hP s wp _ hwp]
+  congr 1
+  show _ * (wp * wp) / _ / _ = _
+  rw [hsq, hk, hstd]
+  have h1 := ne_of_gt htot; have h2 := ne_of_gt hB; have h3 := ne_of_gt hh; have h4 := ne_of_gt hA
+  have h5 := ne_of_gt hc; have h6 := ne_of_gt hs; have h7 := ne_of_gt hj
+  field_simp
+
+/-- **post-condition, STmag**: the standard spectrum is flat at `stZero` FLAM (0 STmag), the factor is
+`10^(−0.4 (target + 2.5 log₁₀(total/std)))`; the normalised spectrum's STmag effective stimulus
+`−2.5 log₁₀(F_λ,eff / stZero)` is the target — for every real target (no sign condition) -/
+theorem normalize_hits_target_stmag (P : PhysConst K) (T : Transc K) (hP : P.Pos) (hT : T.Lawful)
+    (obs band : List (K × K)) (target : K) (hpos : ∀ p ∈ obs, p.1 ≠ 0)
+    (htot : 0 < trapz obs) (hB : 0 < trapz (C09.timesLam band)) :
+    let std := trapz (band.map fun p => (p.1, flatPhotlam P .flam P.stZero p.1 * p.2))
+    let k := factorValue T .stmag target (trapz obs) std
+    toMag T (C09.effstimFlam (obs.map fun p => (p.1, k * p.2 * (P.h * P.c) / p.1)) band / P.stZero) = .ok target := by
+  intro std k
+  have hh := hP.h; have hc := hP.c; have hz := hP.st
+  have hstd : std = P.stZero / (P.h * P.c) * trapz (C09.timesLam band) := std_flam P band P.stZero
+  have hstdpos : 0 < std := by rw [hstd]; positivity
+  have hk : k = ofMag T target * (std / trapz obs) := factorValue_mag hT .stmag rfl _ _ _ htot hstdpos
+  have hm := ofMag_pos hT target
+  have hkpos : 0 < k := by rw [hk]; positivity
+  rw [effstimFlam_scaled obs band (P.h * P.c) k (mul_pos hh hc) hkpos hpos htot hB]
+  have e : k * (P.h * P.c) * trapz obs / trapz (C09.timesLam band) / P.stZero = ofMag T target := by
+    rw [hk, hstd]
+    have h1 := ne_of_gt htot; have h2 := ne_of_gt hB; have h3 := ne_of_gt hh
+    have h5 := ne_of_gt hc; have h6 := ne_of_gt hz
+    field_simp
+  rw [toMag_congr e, toMag_ofMag hT]
+
+/-- **post-condition, ABmag**: standard spectrum flat at `abZero` FNU (0 ABmag); the FLAM effective
+stimulus converted at the pivot to ABmag is the target, for every real target -/
+theorem normalize_hits_target_abmag (P : PhysConst K) (T : Transc K) (hP : P.Pos) (hT : T.Lawful)
+    (obs band : List (K × K)) (target : K)
+    (hpos : ∀ p ∈ obs, p.1 ≠ 0) (hposb : ∀ p ∈ band, p.1 ≠ 0)
+    (htot : 0 < trapz obs) (hB : 0 < trapz (C09.timesLam band)) (hA : 0 < trapz (C09.overLam band)) :
+    let std := trapz (band.map fun p => (p.1, flatPhotlam P .fnu P.abZero p.1 * p.2))
+    let k := factorValue T .abmag target (trapz obs) std
+    let wp := T.sqrt |trapz (C09.timesLam band) / trapz (C09.overLam band)|
+    convertOne P T (plainSamp wp) .flam .abmag
+      (C09.effstimFlam (obs.map fun p => (p.1, k * p.2 * (P.h * P.c) / p.1)) band) = .ok target := by
+  intro std k wp
+  have hh := hP.h; have hc := hP.c; have hz := hP.ab
+  have hstd : std = P.abZero * P.c / (P.h * P.c) * trapz (C09.overLam band) := std_fnu P band P.abZero hposb
+  have hstdpos : 0 < std := by rw [hstd]; positivity
+  have hk : k = ofMag T target * (std / trapz obs) := factorValue_mag hT .abmag rfl _ _ _ htot hstdpos
+  have hm := ofMag_pos hT target
+  have hkpos : 0 < k := by rw [hk]; positivity
+  obtain ⟨hwp, hsq⟩ := pivot_sq hT _ _ hA hB
+  rw [effstimFlam_scaled obs band (P.h * P.c) k (mul_pos hh hc) hkpos hpos htot hB,
+    convert_flam_abmag P T hP wp _ hwp]
+  have e : k * (P.h * P.c) * trapz obs / trapz (C09.timesLam band) * (wp * wp) / P.c / P.abZero = ofMag T target := by
+    rw [hsq, hk, hstd]
+    have h1 := ne_of_gt htot; have h2 := ne_of_gt hB; have h3 := ne_of_gt hh; have h4 := ne_of_gt hA
+    have h5 := ne_of_gt hc; have h6 := ne_of_gt hz
+    field_simp
+  rw [toMag_congr e, toMag_ofMag hT]
+
+/-- **post-condition, count**: `f` are the PHOTLAM samples of source × band, `cf` the count factors
+(bin width × area) `convert_flux` multiplies them by; `total = Σ f·cf`, `std = 1`; the normalised
+spectrum's count rate `Σ (k f)·cf` is the target -/
+theorem normalize_hits_target_count (T : Transc K) (f cf : List K) (target : K)
+    (htot : 0 < (mulFactors f cf).sum) :
+    let k := factorValue T .count target (mulFactors f cf).sum 1
+    (mulFactors (f.map (k * ·)) cf).sum = target := by
+  intro k
+  have hk : k = target * (1 / (mulFactors f cf).sum) := by simp [k, factorValue, FluxUnit.isMag]
+  rw [mulFactors_scaled_sum, hk]
+  have := ne_of_gt htot
+  field_simp
+
+/-- **post-condition, OBMAG**: `−2.5 log₁₀` of the normalised spectrum's count rate is the target -/
+theorem normalize_hits_target_obmag (T : Transc K) (hT : T.Lawful) (f cf : List K) (target : K)
+    (htot : 0 < (mulFactors f cf).sum) :
+    let k := factorValue T .obmag target (mulFactors f cf).sum 1
+    toMag T (mulFactors (f.map (k * ·)) cf).sum = .ok target := by
+  intro k
+  have hk : k = ofMag T target * (1 / (mulFactors f cf).sum) :=
+    factorValue_mag hT .obmag rfl _ _ _ htot one_pos
+  have e : (mulFactors (f.map (k * ·)) cf).sum = ofMag T target := by
+    rw [mulFactors_scaled_sum, hk]
+    have := ne_of_gt htot
+    field_simp
+  rw [toMag_congr e, toMag_ofMag hT]
+
+/-- **post-condition, VEGAMAG**: `vband` holds `(λ, Vega(λ)·P(λ))` on the grid of Vega × band;
+`std = ∫ Vega P`; the normalised spectrum's magnitude relative to Vega,
+`2.5 (log₁₀ ∫Vega P − log₁₀ ∫ k F P)` (what `effstim('vegamag')` returns), is the target -/
+theorem normalize_hits_target_vegamag (T : Transc K) (hT : T.Lawful) (obs vband : List (K × K)) (target : K)
+    (htot : 0 < trapz obs) (hstd : 0 < trapz vband) :
+    let k := factorValue T .vegamag target (trapz obs) (trapz vband)
+    (5/2) * (T.log10 (trapz vband) - T.log10 (trapz (obs.map fun p => (p.1, k * p.2)))) = target := by
+  intro k
+  have hk : k = ofMag T target * (trapz vband / trapz obs) := factorValue_mag hT .vegamag rfl _ _ _ htot hstd
+  have hm := ofMag_pos hT target
+  have e : trapz (obs.map fun p => (p.1, k * p.2)) = ofMag T target * trapz vband := by
+    rw [trapz_smul, hk]
+    have := ne_of_gt htot
+    field_simp
+  rw [e, hT.log10_mul _ _ hm hstd]
+  unfold ofMag
+  rw [hT.log10_pow10]
+  ring
+
+/-- **photon-rate form** (PHOTLAM, PHOTNU — and every linear density unit): the normalised spectrum
+carries the same rate `∫ F' P dλ` through the band as the spectrum flat at the target value
+(`flatPhotlam P u target` is `toPhotlam` of the constant `target`, see `toPhotlam_flat`) -/
+theorem normalize_matches_flat (P : PhysConst K) (T : Transc K) (u : FluxUnit K) (hu : IsLinearDensity u)
+    (obs band : List (K × K)) (target : K) (htot : trapz obs ≠ 0) :
+    let std := trapz (band.map fun p => (p.1, flatPhotlam P u 1 p.1 * p.2))
+    let k := factorValue T u target (trapz obs) std
+    trapz (obs.map fun p => (p.1, k * p.2)) =
+      trapz (band.map fun p => (p.1, flatPhotlam P u target p.1 * p.2)) := by
+  intro std k
+  have hk : k = target * (std / trapz obs) := by
+    cases u <;> first | (simp [k, factorValue, FluxUnit.isMag]; done) | exact absurd hu (by simp [IsLinearDensity])
+  have h2 : (band.map fun p => (p.1, flatPhotlam P u target p.1 * p.2)) =
+      (band.map fun p => (p.1, flatPhotlam P u 1 p.1 * p.2)).map fun p => (p.1, target * p.2) := by
+    simp only [List.map_map]; apply List.map_congr_left; intro p _; simp only [Function.comp]
+    rw [flatPhotlam_amp P u target]; congr 1; ring
+  rw [trapz_smul, h2, trapz_smul, hk]
+  field_simp
+  rfl
+
+/-- … and for PHOTLAM this is literally `∫ F' P = target · ∫ P` -/
+theorem normalize_photlam_rate (T : Transc K) (P : PhysConst K) (obs band : List (K × K)) (target : K)
+    (htot : trapz obs ≠ 0) :
+    let k := factorValue T .photlam target (trapz obs)
+      (trapz (band.map fun p => (p.1, flatPhotlam P .photlam 1 p.1 * p.2)))
+    trapz (obs.map fun p => (p.1, k * p.2)) = target * trapz band := by
+  intro k
+  have h := normalize_matches_flat P T .photlam trivial obs band target htot
+  simp only at h
+  rw [h]
+  have : (band.map fun p => (p.1, flatPhotlam P .photlam target p.1 * p.2)) =
+      band.map fun p => (p.1, target * p.2) := by
+    apply List.map_congr_left; intro p _; rfl
+  rw [this, trapz_smul]
 
 /-! ### errors and the operand -/
 
